@@ -252,7 +252,7 @@ def check_conversions(ctx: Ctx):
     Position, *_, ellipsoid, T = _imp()
     drv, rng = ctx.driver, ctx.rng
     names = list(ellipsoid._ELLIPSOIDS)
-    n_groups = ctx.budget(700, 60000)
+    n_groups = ctx.budget(700, 46000)
     pending = []  # for the mpmath reference
     corpus = []
     run_corpus(ctx, "C05", lambda c: corpus.append(c) if c.get("kind") == "points" and c.get("ellipsoid") in names else None)
@@ -497,7 +497,7 @@ def alias_history(ctx, case, ell, E, sh, system, rows):
 def measure_accuracy(ctx: Ctx, pending):
     """the accuracy figures of the published one-step algorithm, measured against mpmath"""
     *_, ellipsoid, T = _imp()
-    limit = ctx.budget(2500, 120000)
+    limit = ctx.budget(2500, 95000)
     pending = pending[:limit]
     jobs = []
     for ell, kind, xyz, llh, case in pending:
@@ -513,7 +513,7 @@ def measure_accuracy(ctx: Ctx, pending):
         E = ellipsoid.get(ell)
         ctx.count("mpmath-reference")
         if ref.get("R") is not None:
-            # (0) the closed form of `roundtrip_error_partial`, evaluated by mpmath on the one-step algorithm in exact arithmetic:
+            # (0) the closed form of `roundtrip_error_closed_form`, evaluated by mpmath on the one-step algorithm in exact arithmetic:
             #     |R| is the round-trip error of the algorithm; the compiled model's R (Float) agrees up to rounding
             R_mp, rt_mp = float(ref["R"]), float(ref["onestep_roundtrip"])
             rad_ = math.sqrt(sum(c * c for c in xyz))
@@ -529,7 +529,7 @@ def measure_accuracy(ctx: Ctx, pending):
                     gdisagree(ctx, "near_of_height: a point within 100 km has |A - q| <= 0.0162", case, 0.0162, abs(A_ - q_))
             worst["R_near" if near_ else "R_far"] = max(worst["R_near" if near_ else "R_far"], abs(R_mp))
             if not abs(abs(R_mp) - rt_mp) <= 1e-18 + 1e-12 * rt_mp:
-                gdisagree(ctx, "closed form R of the round-trip error (theorem roundtrip_error_partial) vs mpmath round trip", case, abs(R_mp), rt_mp)
+                gdisagree(ctx, "closed form R of the round-trip error (theorem roundtrip_error_closed_form) vs mpmath round trip", case, abs(R_mp), rt_mp)
             if not abs(R_mp) <= (NEAR if near_ else FAR):
                 gviolate(ctx, f"algorithm-roundtrip:{'near' if near_ else 'far'}", f"{ell}: the one-step algorithm in exact arithmetic has round-trip error |R| = {abs(R_mp):.3e} m at {xyz} (kind {kind})", case)
             R_f = floats(toff[k_])[0]
@@ -563,7 +563,7 @@ def measure_accuracy(ctx: Ctx, pending):
     ctx.extra["measured_accuracy_note"] = ("max over the sampled points against mpmath (50 digits): *_resid = |exact llh2trs(returned llh) - input|, "
                                            "exact_* = distance to the exact geodetic coordinates, algo_* = distance to the one-step "
                                            "algorithm evaluated in exact arithmetic; near = |h| <= 100 km, far = up to 50 000 km; R_* = |tangential offset R| of "
-                                           "the one-step algorithm in exact arithmetic (= its round-trip error, theorem roundtrip_error_partial); "
+                                           "the one-step algorithm in exact arithmetic (= its round-trip error, theorem roundtrip_error_closed_form); "
                                            "R_float_model_minus_mp = max |R(Float model) - R(mpmath)| / geocentric distance")
 
 
@@ -766,7 +766,7 @@ def check_flow(ctx: Ctx):
     Position, PositionDelta, PosVel, PosVelDelta, PositionArray, PosVelArray, ellipsoid, T = _imp()
     drv, rng = ctx.driver, ctx.rng
     names = list(ellipsoid._ELLIPSOIDS)
-    n = ctx.budget(400, 30000)
+    n = ctx.budget(400, 24000)
     ctor_kinds = tuple(drv.ask1("c05 getitemkinds").split(","))
     # every single operation on every ellipsoid first (the boundary set), then random sequences
     seqs = []
